@@ -11,7 +11,6 @@ import (
 
 	"reduction.dev/reduction/batching"
 	"reduction.dev/reduction/storage/snapshots"
-	"reduction.dev/reduction/util/vhook"
 	"verif/cluster"
 	"verif/lib"
 )
@@ -59,7 +58,7 @@ func c14Run(c *lib.Ctx, scaleDown bool) {
 	var pubMu sync.Mutex
 	pubEnded := map[uint64]error{}
 	ended := map[uint64]bool{}
-	vhook.Set(func(name string, arg any) {
+	cluster.SetHook(func(name string, arg any) {
 		if name == "snapshots.publication-ended" {
 			e := arg.(snapshots.VerifPublicationEnded)
 			pubMu.Lock()
@@ -67,7 +66,7 @@ func c14Run(c *lib.Ctx, scaleDown bool) {
 			pubMu.Unlock()
 		}
 	})
-	defer vhook.Set(nil)
+	defer cluster.SetHook(nil)
 	if !scaleDown && c.R.Intn(4) == 0 {
 		// a memtable so small that every write rotates it: at an idle moment an operator has flushed everything it
 		// has written (empty memtable, the WAL's entries are all in tables)
